@@ -294,18 +294,14 @@ def main():
         exit_code = 1
         if reported >= 5:
             break
-    if reasons and not new_viols and not (viols and not new_viols and False):
-        # proof or correspondence no longer checks and the search found no failing input
-        only_known = bool(viols) and not new_viols
-        if not only_known:
-            path = write_replay(args.pid, {'property': args.pid, 'kind': reasons[0]['kind'], 'seed': seed,
-                                           'theorem_or_stream': reasons, 'note': 'no failing input found by the oracle search'})
-            print(f"VIOLATION property={args.pid} replay={path} no-failing-input-found")
-            exit_code = 1
-        else:
-            # everything the search found is a recorded finding; the break is explained by it
-            for r in reasons:
-                log('note: obligation broken, explained by known finding(s):', json.dumps(r)[:300])
+    if reasons and not new_viols:
+        # proof or correspondence no longer checks and the search found no failing input that is not already recorded: the property is
+        # no longer shown to hold.  (A recorded finding never explains a broken obligation: on the unchanged tree every theorem is
+        # discharged and every stream agrees with the finding present.)
+        path = write_replay(args.pid, {'property': args.pid, 'kind': reasons[0]['kind'], 'seed': seed,
+                                       'theorem_or_stream': reasons, 'note': 'no failing input found by the oracle search'})
+        print(f"VIOLATION property={args.pid} replay={path} no-failing-input-found")
+        exit_code = 1
 
     nthm = len(build['theorems'])
     discharged = len([t for t in build['theorems'] if t in build['axioms'] and set(build['axioms'][t]) <= STD_AXIOMS]) if build['build_ok'] else 0
